@@ -77,7 +77,7 @@ func fbChildCase(kind, mode string, bound int, body []byte) (word string, n int,
 	}
 	cpu0 := fbCPUTime()
 	before := runtime.NumGoroutine()
-	budget := membudget.New(int64(8<<20) + min(int64(1024*len(body)), 256<<20)) // limits.StreamBudget
+	budget := membudget.New(fbStreamBudgetOf(len(body))) // limits.StreamBudget
 	t0 := time.Now()
 	rd, err := fbChildFilter(kind).Decode(pdf.V2_0, bytes.NewReader(body), budget)
 	word = "data"
@@ -159,6 +159,18 @@ func fbChildMain() {
 		}
 		fmt.Fprintf(out, "B %s\n", a[0])
 		out.Flush()
+		if a[1] == "jb2s" || a[1] == "gchain" { // structured JBIG2 streams and /JBIG2Globals chains, see fb_audit.go
+			var word, detail string
+			var n int
+			if a[1] == "jb2s" {
+				word, n, detail = fbChildStructCase(a[2])
+			} else {
+				word, n, detail = fbChildGlobalsChain(fbAtoi(a[2]))
+			}
+			fmt.Fprintf(out, "E %s %s %d 0 %s\n", a[0], word, n, detail)
+			out.Flush()
+			continue
+		}
 		if strings.HasPrefix(a[1], "slurp") { // input buffering behind expanding filters, see fb_slurp.go
 			word, n, detail := fbChildSlurpCase(a[1], fbAtoi(a[3]), fbHexDecode(a[4]))
 			fmt.Fprintf(out, "E %s %s %d 0 %s\n", a[0], word, n, detail)
@@ -713,7 +725,7 @@ func runFBChild(c *Ctx) {
 			c.Violate("fb-hostile-child", "jbig2-seed", "cannot build the JBIG2 memory stream "+ps.String()+": "+err.Error(), "")
 			continue
 		}
-		total := 8<<20 + 1024*len(body)
+		total := fbStreamBudgetOf(len(body))
 		note = fmt.Sprintf("[jbig2 memory %s: %d input bytes, budget %d, %d bytes stay alive if every round is decoded]", ps, len(body), total, ps.trueRetained())
 		add("jbig2ledger", "all", -1, body)
 		if ps.ri == 0 && !ps.extraDict && (c.Thorough || ps.rounds == 16) {
@@ -759,12 +771,28 @@ func runFBChild(c *Ctx) {
 			c.Stat("chain_" + cc.mode)
 		}
 	}
+	// structured JBIG2 streams (cost in the segment structure) and /JBIG2Globals chains
+	fam = 6
+	for _, sp := range fbStructCases(c.Thorough) {
+		note = "[jbig2 structure " + sp.String() + "]"
+		cases = append(cases, fmt.Sprintf("jb2s %s -1 00", sp))
+		notes = append(notes, note)
+		family = append(family, fam)
+		c.Stat("struct_" + sp.name)
+	}
+	for _, d := range fbGlobalsChainDepths(c.Thorough) {
+		note = fmt.Sprintf("[JBIG2Globals chain of %d streams]", d)
+		cases = append(cases, fmt.Sprintf("gchain %d -1 00", d))
+		notes = append(notes, note)
+		family = append(family, fam)
+		c.Stat("globals_chain")
+	}
 	note = ""
 	c.StatN("child_cases", len(cases))
 	res := make([]fbChildResult, len(cases))
 	var wg sync.WaitGroup
-	var ms [6]int
-	for f := 0; f < 6; f++ { // the families run in children side by side
+	var ms [7]int
+	for f := 0; f < 7; f++ { // the families run in children side by side
 		wg.Add(1)
 		go func(f int) {
 			defer wg.Done()
@@ -814,6 +842,37 @@ func runFBChild(c *Ctx) {
 		if strings.HasPrefix(notes[i], "[progressive") {
 			kindWord = "prog"
 		}
+		classKey := "" // structured cases: every resource failure belongs to the class the spec is aimed at
+		if kindWord == "jb2s" {
+			sp := fbParseJ2Spec(strings.Fields(cases[i])[1])
+			kindWord = "struct_" + sp.name
+			switch rs.word {
+			case "superlinear", "allocvolume", "unchargedwork", "overbudget", "accounting", "hang", "slow", "crash":
+				classKey = sp.classKey()
+			}
+			if len(c.rep.Samples) < 12 && (sp.a >= 1000 || rs.word != "data") {
+				c.Sample(fmt.Sprintf("%s -> %s %s", notes[i], rs.word, fbTruncStr(rs.detail)))
+			}
+		}
+		if kindWord == "gchain" {
+			depth := fbAtoi(strings.Fields(cases[i])[1])
+			if (rs.word == "data" || rs.word == "malformed") && depth <= 200 {
+				// correspondence: one object per reference (well below limits.MaxExtractDepth; how a
+				// longer chain is cut — at the limit or earlier — is left to the oracle below)
+				c.Emit(fmt.Sprintf("FB gchain %d", depth), fmt.Sprintf("%d", rs.n))
+			}
+			if rs.n > 256 || rs.word == "superlinear" || rs.word == "hang" || rs.word == "crash" {
+				classKey = "jbig2globals-chain-depth"
+				if rs.word == "data" || rs.word == "malformed" {
+					rs.word = "chaindepth"
+				}
+			}
+		}
+		if classKey != "" {
+			c.Stat("child_" + kindWord + "_" + rs.word)
+			c.Violate("fb-hostile-child", classKey, fmt.Sprintf("%s: %s %s %s", rs.word, rs.detail, notes[i], rs.stderr), cases[i])
+			continue
+		}
 		if strings.HasPrefix(notes[i], "[jbig2 memory") && i < 4+len(cases) && c.rep != nil && len(c.rep.Samples) < 11 && rs.word != "" {
 			c.Sample(fmt.Sprintf("%s %s -> %s %s", kindWord, notes[i], rs.word, fbTruncStr(rs.detail)))
 		}
@@ -852,6 +911,8 @@ func runFBChild(c *Ctx) {
 			c.Violate("fb-hostile-child", "pool-ledger", rs.detail+" "+notes[i], in)
 		case "overwork":
 			c.Violate("fb-hostile-child", "work-not-proportional", rs.detail+" "+notes[i], in)
+		case "nobuild":
+			c.Violate("fb-hostile-child", "jbig2-seed", "cannot build the structured case: "+rs.detail+" "+notes[i], in)
 		case "nochild":
 			c.Violate("fb-hostile-child", "no-child-process", rs.detail, in)
 		default:
